@@ -21,7 +21,7 @@ def EXES(tier):
 
 
 def cases(tier, seed):
-    ng, nh, nt = (120, 120, 16) if tier == 'quick' else (5000, 5000, 400)
+    ng, nh, nt = (200, 200, 24) if tier == 'quick' else (5000, 5000, 400)
     return [('grid', i) for i in range(ng)] + [('history', i) for i in range(nh)] + [('threads', i) for i in range(nt)]
 
 
